@@ -30,6 +30,14 @@ THEOREMS = [
     "OllamaVerif.C05.decode_encode",
     "OllamaVerif.C05.decode_encode_any_key_order",
     "OllamaVerif.C05.write_decode_full",
+    "OllamaVerif.C05.write_decode_full_repaired_writer",
+    "OllamaVerif.C05.F1c_writer_accepts_what_decoder_rejects",
+    "OllamaVerif.C05.F1c_zero_alignment_without_tensors",
+    "OllamaVerif.C05.fileOf1_is_encode",
+    "OllamaVerif.C05.create_takes_any_written_file_whole",
+    "OllamaVerif.C05.file96_written",
+    "OllamaVerif.Gguf.encode_strict",
+    "OllamaVerif.Gguf.decode_encode_at_sorted",
     "OllamaVerif.C05.decode_written_file_at",
     "OllamaVerif.C05.create_layers_of_written_files",
     "OllamaVerif.C05.end_offset_is_file_length",
@@ -50,6 +58,7 @@ REQUIRED_COUNTERS = [
     "kv_empty_string", "kv_empty_array", "kv_array_collected", "kv_array_not_collected",
     "kv_array_at_limit", "kv_array_limit_plus_1",
     "cases_no_tensor", "cases_ge3_tensors", "cases_sort_reordered", "cases_alignment_not_32",
+    "cases_alignment_not_power_of_two", "cases_alignment_invalid",
     "tensor_size_not_multiple_of_32", "decode_at_offset_cases", "failing_source_cases",
     "tensor_size_checked_independently",
 ]
